@@ -45,6 +45,7 @@ def step (s : St) (line : String) : St × String :=
   match words line with
   | ["reset"] => ({}, "ok")
   | "probe" :: _ => (s, "-")
+  | ["killfast"] => let s' := Iscp.ConnM.step (Iscp.ConnM.step s .kill) (.dial true); (s', summary s')
   | ["failclose"] => let s' := Iscp.ConnM.step (Iscp.ConnM.step s (.dial false)) .close; (s', summary s')
   | w =>
     match parse w with
